@@ -24,7 +24,9 @@ Kinds == {"first", "startup", "restart", "restartfailed", "shutdown", "final"}
 \* "panic": a directive's setup function panics while the new configuration is loaded; Restart
 \* recovers (casket.go: the deferred func of Instance.Restart), so it is one more way for a reload
 \* to fail at the setup stage (Start does not recover: a panic there is the caller's)
-Fails == {"none", "setup", "startupcb", "listen", "restartcb", "panic"}
+\* "parse": the new Casketfile does not parse (unknown directive): fails where "setup" does, but no
+\* directive's setup function ever runs
+Fails == {"none", "setup", "startupcb", "listen", "restartcb", "panic", "parse"}
 MaxGen == MaxOps
 NoGen == 0
 
@@ -33,7 +35,7 @@ NoGen == 0
 \* file = the listeners of the instance the operation creates can be handed over to a later
 \* reload (they implement casket.Listener, i.e. File()); FALSE: a reload finds nothing to inherit
 \* and every server of the new instance listens afresh - it is a reload all the same
-Ops == [t : {"start"}, lin : 1..MaxStarts, n : 1..2, f : {"none", "setup", "startupcb", "listen"}, file : BOOLEAN]
+Ops == [t : {"start"}, lin : 1..MaxStarts, n : 1..2, f : {"none", "setup", "startupcb", "listen", "parse"}, file : BOOLEAN]
   \cup [t : {"restart"}, lin : 1..MaxStarts, n : 1..2, f : Fails, file : BOOLEAN]
   \cup [t : {"stop"}, lin : 1..MaxStarts, n : {1}, f : {"none"}, file : {TRUE}]
   \cup [t : {"stopall"}, lin : {1}, n : {1}, f : {"none"}, file : {TRUE}]
@@ -151,7 +153,7 @@ FailTo == IF op.t = "restart" THEN "restartfailed" ELSE "reterr"
 \* ValidateAndExecuteDirectives (+ MakeServers): the directives' setup functions run
 Directives ==
     /\ pc = "dirs"
-    /\ IF op.f \in {"setup", "panic"}
+    /\ IF op.f \in {"setup", "panic", "parse"}
          THEN Discard /\ pc' = FailTo
          ELSE pc' = (IF inst[g].restart THEN "startup" ELSE "first") /\ UNCHANGED <<inst, instances>>
     /\ UNCHANGED <<hist, op, g, old, k, ph, cb, srv, wg, waiter, held, att>>
